@@ -404,6 +404,7 @@ package res
 //@
 //@ func (s *Service) runWith(wid string, cb func())
 //@   requires s != nil && cb != nil
+//@   async cb
 //@   modifies res.Service.rwork, res.Service.workqueue, alloc, res.work.s, res.work.wid, res.work.queue, res.work.single, map:res.Service.rwork, elems:res.Service.workqueue, elems:res.work.queue, ghost.wst, ghost.qpos
 //@   ghost unlock 2 before :: assert accepted.new: w != nil && len(w.queue) == 1 && w.queue[0] == cb && same(w.wid, wid)
 //@   ghost unlock 2 before :: set wst = store(wst, ref(w), 1)
@@ -839,3 +840,121 @@ package res
 //@   modifies all
 //@   callback onError benign
 //@   ghost call Service.reset#1 before :: assert owned: same(arg_resources, s.resetResources) && same(arg_access, s.resetAccess)
+//@
+//@ # ================================================================ query events (C15)
+//@ props C15
+//@ # qrcount[q]: number of responses published for query request object q
+//@ ghostvar qrcount arr
+//@ pred qrOK(q *queryRequest) = q != nil && q.s != nil && q.msg != nil && !isNil(q.s.nc)
+//@ pred invQ(q *queryRequest) = qrcount[ref(q)] == ite(q.replied, 1, 0)
+//@ pred qstable(q *queryRequest) = invQ(q) && imp(old(q.replied), q.replied) && q.msg == old(q.msg) && q.s == old(q.s) && same(q.s.nc, old(q.s.nc)) && q.s.logger == old(q.s.logger) && same(q.msg.Reply, old(q.msg.Reply))
+//@ func (qr *queryRequest) reply(payload []byte)
+//@   requires qrOK(qr)
+//@   modifies res.queryRequest.replied, ghost.qrcount, ghost.pubn, alloc
+//@   ghost call Conn.Publish#1 before :: assert to.requester: same(arg_subject, qr.msg.Reply)
+//@   ghost call Conn.Publish#1 after :: set qrcount = store(qrcount, ref(qr), qrcount[ref(qr)] + 1)
+//@   ensures once: qr.replied && qrcount == store(old(qrcount), ref(qr), old(qrcount[ref(qr)]) + ite(old(qr.replied), 0, 1))
+//@ func (qr *queryRequest) error(e *Error)
+//@   requires qrOK(qr)
+//@   modifies res.queryRequest.replied, ghost.qrcount, ghost.pubn, alloc
+//@   ghost call Marshal#1 before :: assert nonnull: e != nil
+//@   ensures once: qr.replied && qrcount == store(old(qrcount), ref(qr), old(qrcount[ref(qr)]) + ite(old(qr.replied), 0, 1))
+//@ func (qr *queryRequest) success(result interface{})
+//@   requires qrOK(qr)
+//@   modifies res.queryRequest.replied, ghost.qrcount, ghost.pubn, alloc
+//@   ensures once: qr.replied && qrcount == store(old(qrcount), ref(qr), old(qrcount[ref(qr)]) + ite(old(qr.replied), 0, 1))
+//@ func (qr *queryRequest) NotFound()
+//@   requires qrOK(qr) && invQ(qr)
+//@   modifies res.queryRequest.replied, ghost.qrcount, ghost.pubn, alloc
+//@   ensures qstable(qr) && qr.replied
+//@ func (qr *queryRequest) InvalidQuery(message string)
+//@   requires qrOK(qr) && invQ(qr)
+//@   modifies res.queryRequest.replied, ghost.qrcount, ghost.pubn, alloc
+//@   ensures qstable(qr) && qr.replied
+//@ func (qr *queryRequest) Error(err error)
+//@   requires qrOK(qr) && invQ(qr)
+//@   modifies res.queryRequest.replied, ghost.qrcount, ghost.pubn, alloc
+//@   may_panic
+//@   ensures qstable(qr) && qr.replied
+//@   ensures_on_panic isNil(err) && qstable(qr) && qr.replied == old(qr.replied)
+//@ func (qr *queryRequest) Model(model interface{})
+//@   requires qrOK(qr) && invQ(qr)
+//@   modifies res.queryRequest.replied, ghost.qrcount, ghost.pubn, alloc
+//@   may_panic
+//@   ensures qstable(qr) && qr.replied
+//@   ensures_on_panic qr.h.Type == TypeCollection && qstable(qr) && qr.replied == old(qr.replied)
+//@ func (qr *queryRequest) Collection(collection interface{})
+//@   requires qrOK(qr) && invQ(qr)
+//@   modifies res.queryRequest.replied, ghost.qrcount, ghost.pubn, alloc
+//@   may_panic
+//@   ensures qstable(qr) && qr.replied
+//@   ensures_on_panic qr.h.Type == TypeModel && qstable(qr) && qr.replied == old(qr.replied)
+//@
+//@ # the query callback is client code holding the query request: it may call any method any number of times and may panic
+//@ # qcalls: invocations of a query callback with a request; qnil: invocations with nil
+//@ ghostvar qcalls int
+//@ ghostvar qnil int
+//@ func callback.queryCB(self ref, r iface)
+//@   requires typeIs(r, "*res.queryRequest") && qrOK(ptrOf(r, "*res.queryRequest")) && invQ(ptrOf(r, "*res.queryRequest"))
+//@   modifies all
+//@   ensures qstable(ptrOf(r, "*res.queryRequest")) && qcalls == old(qcalls) + 1 && qnil == old(qnil)
+//@   ensures_on_panic qstable(ptrOf(r, "*res.queryRequest")) && qcalls == old(qcalls) + 1 && qnil == old(qnil)
+//@ # the final call: the callback is told that the query event is over
+//@ func callback.queryNilCB(self ref, r iface)
+//@   requires isNil(r)
+//@   modifies all
+//@   ensures qnil == old(qnil) + 1 && qcalls == old(qcalls) && libFrame()
+//@ func queryRequest.executeCallback$1()
+//@   requires qrOK(qr) && invQ(qr)
+//@   modifies res.queryRequest.replied, ghost.qrcount, ghost.pubn, alloc
+//@   ensures quiet: imp(isNil(recovered), qr.replied == old(qr.replied) && qrcount == old(qrcount))
+//@   ensures answered: imp(!isNil(recovered), qr.replied && invQ(qr))
+//@ func (qr *queryRequest) executeCallback(cb func(QueryRequest))
+//@   requires qrOK(qr) && invQ(qr) && cb != nil
+//@   modifies all
+//@   callback cb queryCB
+//@   ensures qstable(qr) && qcalls == old(qcalls) + 1 && qnil == old(qnil)
+//@ func (qe *queryEvent) handleQueryRequest(m *nats.Msg)
+//@   requires qe != nil && qe.r.s != nil && m != nil && !isNil(qe.r.s.nc) && qe.cb != nil
+//@   requires fresh: forallge(q, nextRef(), qrcount[q] == 0)
+//@   modifies all
+//@   # every query request gets exactly one response, sent to its reply subject
+//@   ghost exit :: assert answered: qrcount[ref(qr)] == 1 && qr.msg == m
+//@   # once the query event has expired the callback is not called again
+//@   ensures late: imp(old(qe.expired), qcalls == old(qcalls)) && qnil == old(qnil)
+//@
+//@ func (qe *queryEvent) startQueryListener()
+//@   requires qe != nil && qe.r.s != nil
+//@   modifies all
+//@   callsite select#1 builtin.selectQuery
+//@   loop 1 invariant qe != nil && qe.r.s != nil
+//@ func queryEvent.startQueryListener$1()
+//@   requires qe != nil && qe.r.s != nil && m != nil && !isNil(qe.r.s.nc) && qe.cb != nil
+//@   requires fresh: forallge(q, nextRef(), qrcount[q] == 0)
+//@   modifies all
+//@   ensures late: imp(old(qe.expired), qcalls == old(qcalls)) && qnil == old(qnil)
+//@ func Service.queryEventExpire$1()
+//@   requires qe != nil && qe.cb != nil
+//@   modifies all
+//@   callback cb queryNilCB
+//@   ensures last: qnil == old(qnil) + 1 && qcalls == old(qcalls)
+//@   ghost call queryNilCB#1 before :: assert marked: qe.expired
+//@ func (s *Service) queryEventExpire(v interface{})
+//@   requires s != nil && typeIs(v, "*res.queryEvent") && ptrOf(v, "*res.queryEvent") != nil && ptrOf(v, "*res.queryEvent").sub != nil && ptrOf(v, "*res.queryEvent").cb != nil
+//@   requires once: !chclosed[ref(ptrOf(v, "*res.queryEvent").done)]
+//@   modifies all
+//@   callsite close#1 builtin.closeSignal
+//@   # the subscription is drained and the listener is told to stop; the final nil call is queued in the resource's group
+//@   ghost call Service.runWith#1 before :: assert released: drained[ref(qe.sub)] && chclosed[ref(qe.done)]
+//@   ensures quiet: qcalls == old(qcalls) && qnil == old(qnil)
+//@ func (r *resource) QueryEvent(cb func(QueryRequest))
+//@   requires resOK(r) && cb != nil && r.s.queryTQ != nil
+//@   requires rname: nameOK(r.rname)
+//@   modifies all
+//@   callback cb queryNilCB
+//@   # the query event is announced, listened to and timed only when the subscription succeeded
+//@   ghost call Service.event#1 before :: assert subscribed: isNil(err) && subopen == old(subopen) + 1 && qnil == old(qnil)
+//@   ghost call Queue.Add#1 before :: assert subscribed: isNil(err) && qnil == old(qnil)
+//@   ensures failed.nil: imp(!isNil(err), qnil == old(qnil) + 1)
+//@   ensures ok: imp(isNil(err), subopen == old(subopen) + 1 && qnil == old(qnil) && tqadded == old(tqadded) + 1)
+//@   ensures never: qcalls == old(qcalls)
